@@ -419,7 +419,8 @@ def clamp_after_render(ctx):
                   and any(all(isinstance(x, ast.Pass) for x in h.body) for h in t.handlers) for t in ast.walk(vr))
     rn = ctx.fn("Rect.render", "R06.2")
     order = {id(st): k for k, st in enumerate(stmts_in(rn.body))}
-    resolves = [st for st in stmts_in(rn.body) if isinstance(st, ast.Assign) and any(isinstance(c, ast.Call) and isinstance(c.func, ast.Attribute) and c.func.attr == "value" for c in ast.walk(st.value))]
+    _res = Taint(rn, lambda n_: isinstance(n_, ast.Call) and isinstance(n_.func, ast.Attribute) and n_.func.attr == "value", through_containers=False)
+    resolves = [st for st in stmts_in(rn.body) if isinstance(st, ast.Assign) and _res.derived(st.value)]
     ctx.need(bool(resolves), "R06.2", "Rect.render: length resolution not found")
     again = [st for st in stmts_in(rn.body) if isinstance(st, ast.Expr) and isinstance(st.value, ast.Call) and attr_chain(st.value.func) == ["self", "_validate_rect"]]
     clamps = [st for st in stmts_in(rn.body) if any(isinstance(c, ast.Call) and call_name(c) == "min" for c in ast.walk(st))]
